@@ -150,6 +150,9 @@ impl<'a, T: ?Sized> Drop for MutexGuard<'a, T> {
             self.lock.poisoned.set(true);
         }
         self.lock.release();
+        // releasing is a visible operation of its own: a thread can be preempted between two
+        // unlocks (e.g. between "schedule looked at" and "busy flag released")
+        kernel::point();
     }
 }
 
@@ -195,8 +198,9 @@ impl Condvar {
         // a scheduling point before the wait takes effect
         kernel::point();
         let spurious = kernel::spurious_cv();
-        // release and enqueue atomically
-        drop(guard);
+        // release and enqueue atomically (no scheduling point between the two)
+        std::mem::forget(guard);
+        lock.release();
         if spurious {
             kernel::point();
         } else {
